@@ -11,16 +11,9 @@ from vf import tlc
 from vf.core import Ctx, Machinery
 
 
-def _record(sc: dict) -> dict:
-    from props import cachefam as cf
-    return cf.Recorder(sc).run()
-
-
 def record_all(scenarios: List[dict], procs: int) -> List[dict]:
-    if procs <= 1 or len(scenarios) < 32:
-        return [_record(sc) for sc in scenarios]
-    with mp.get_context('fork').Pool(procs) as pool:
-        return pool.map(_record, scenarios, chunksize=8)
+    from props import trace_run
+    return trace_run.record_all('props.cachefam', 'Recorder', scenarios, procs)
 
 
 def validate(traces: List[dict], own: str, batch: int = 400, par: int = 4) -> Tuple[List[list], int, int]:
